@@ -8,3 +8,6 @@
 (define-fun inKS ((c Str) (k Str)) Bool (or (= k (collKey c)) (hasPrefix k (collPrefix c))))
 ; index entries of field f of collection c live under "c:<c>;i:<f>" (mirrors rangeIndex.getKeyPrefix)
 (define-fun idxPrefix ((c Str) (f Str)) Str (scat (scat (scat (lit "c:") c) (lit ";i:")) f))
+; the key space of ONE index: its prefix with the ';' that ends the field name (C14: indexes are independent;
+; field names hold no ';', so "c:<c>;i:x;" is not a prefix of any key of index "xy")
+(define-fun idxKS ((c Str) (f Str)) Str (scat (idxPrefix c f) (lit ";")))
